@@ -18,7 +18,10 @@ LEAF_TYPES = ["text", "text", "keyword", "long", "date", "boolean"]
 
 def gen_mapping(rng, depth=0, legacy=False):
     props = {}
-    for name in rng.sample(es.NAMES, rng.choice([1, 2, 3] if depth else [2, 3, 4])):
+    names = rng.sample(es.NAMES, rng.choice([1, 2, 3] if depth else [2, 3, 4]))
+    if rng.random() < 0.3:
+        names.append(rng.choice(names) + rng.choice(["s", "b", "_x", "1"]))     # `author` / `authors`
+    for name in names:
         k = rng.random()
         if depth < 3 and k < 0.25:
             props[name] = {"type": "nested", "properties": gen_mapping(rng, depth + 1, legacy)}
